@@ -76,7 +76,7 @@ class Runner(object):
 
     def tmpdir(self):
         if self.tmp is None:
-            self.tmp = tempfile.mkdtemp(prefix="verif-scen-", dir="/tmp")
+            self.tmp = tempfile.mkdtemp(prefix="verif-scen-", dir=os.environ.get("VERIF_TMP", "/tmp"))
         return self.tmp
 
     def cleanup(self):
